@@ -28,9 +28,10 @@ type pool struct {
 	Items       int         `json:"items"`
 	Entries     []poolEntry `json:"entries"`
 
-	allPass []int         // entries passing every item
-	failing [][]int       // per item: entries failing it
-	byBin   [][10][]int   // per item: all-pass entries by Q bin
+	allPass   []int       // entries passing every item
+	failing   [][]int     // per item: entries failing it
+	byBin     [][10][]int // per item: all-pass entries by Q bin
+	failByBin [][10][]int // per item: entries failing that item (and nothing before it), by Q bin
 }
 
 func sampleBytes(seed uint64, n int) []byte { return gen.NewRng(seed).Bytes(n) }
@@ -67,6 +68,7 @@ func (p *pool) index() {
 	full := 1<<uint(p.Items) - 1
 	p.failing = make([][]int, p.Items)
 	p.byBin = make([][10][]int, p.Items)
+	p.failByBin = make([][10][]int, p.Items)
 	for k, e := range p.Entries {
 		if e.Pass == full {
 			p.allPass = append(p.allPass, k)
@@ -77,6 +79,7 @@ func (p *pool) index() {
 		for i := 0; i < p.Items; i++ {
 			if e.Pass>>uint(i)&1 == 0 {
 				p.failing[i] = append(p.failing[i], k)
+				p.failByBin[i][e.QBin[i]] = append(p.failByBin[i][e.QBin[i]], k)
 			}
 		}
 	}
